@@ -41,6 +41,16 @@ def toPL (ci : SCls → ClsInfo) (f : Fmt) (pwt : Option (List PStr)) (pn : Opti
   | n :: ns => toP ci f pwt pn k n :: toPL ci f pwt pn (k + size n) ns
 end
 
+mutual
+/-- no element is `hidden` (a hidden element has no pieces, hence no lines of its own: outside this bridge) -/
+def noHidden : Node → Bool
+  | .str _ _ => true
+  | .tag i ks => !i.hidden && noHiddenL ks
+def noHiddenL : List Node → Bool
+  | [] => true
+  | n :: ns => noHidden n && noHiddenL ns
+end
+
 /-- a whitespace string the pretty-printer inserts -/
 def ws (x : PStr) : Node := .str .navigable x
 
